@@ -94,6 +94,8 @@ def obligations(ctx):
     out.append(("C09", "main has exactly one of the model/module headers", "subset", L("main"), seq(nohdr, hdr, nohdr), False))
     out.append(("C09", "a container parameter type has exactly one non-nested element type", "equal", L("parameterType"),
                 alt(t("CONDITION_PARAM_TYPE"), seq(t("CONDITION_PARAM_CONTAINER"), t("LESS"), t("CONDITION_PARAM_TYPE"), t("GREATER"))), False))
+    out.append(("C02", "a condition has at least one parameter (a parameter-less condition has no DSL form)", "subset", L("condition"),
+                seq(sigstar, r("conditionParameter"), sigstar), False))
     out.append(("C09", "extend is only admitted in front of a type definition", "subset", L("typeDef"),
                 seq(sigstar, t("TYPE"), WS, r("extended_identifier"), sigstar), False))
     # ---- C03
@@ -127,6 +129,11 @@ def obligations(ctx):
     out.append(("C03", "WHITESPACE covers runs of blanks, tabs and form feeds", "equal", plus(cset(" \t\x0c")), LX("WHITESPACE"), True))
     out.append(("C03", "NEWLINE covers LF, CRLF, CR and FF with blanks on either side, repeated (blank lines, indentation)", "subset",
                 seq(opt(lw), alt(seq(opt(chars("\r")), chars("\n")), chars("\r"), chars("\x0c")), opt(lw), opt(ln)), LX("NEWLINE"), True))
+    # a comment ends where the line ends: every line break of the grammar (LF, CR, FF as in NEWLINE) - a comment token
+    # that runs over one of them swallows the following lines
+    if "CEL_COMMENT" in ctx.lrule:
+        out.append(("C03", "a // comment ends at the line break of the grammar (LF or CR)", "subset", LX("CEL_COMMENT"),
+                    star(("set", A.complement(((10, 10), (13, 13)), 0, 0x10FFFF))), True))
     letter = ("call", ctx.lrule["LETTER"])
     digit = ("call", ctx.lrule["DIGIT"])
     us = chars("_")
@@ -157,4 +164,37 @@ def run():
         v, _ = z3.nonempty(ra)
         results.append({"property": prop, "name": name + " [vacuity: lhs non-empty]", "verdict": "unsat" if v == "sat" else "sat", "witness": None if v == "sat" else "left-hand side is empty"})
     z3.close()
+    results.extend(direct_checks(ctx))
     return results, {"z3_calls": z3.calls, "z3_s": round(z3.secs, 2)}
+
+
+def direct_checks(ctx):
+    """Structural facts read off the two ATNs (compared directly, no solver): a token type that a parser rule expects
+    must be delivered to the parser - a lexer rule that sends it to another channel or skips it makes that part of the
+    parser rule dead, and the text it stands for never reaches the listener."""
+    out = []
+    expected = set()
+    for (_, _, typ, a1, a2, _) in ctx.patn.edges:
+        if typ == 5:          # ATOM
+            expected.add(a1)
+        elif typ == 2:        # RANGE
+            expected.update(range(a1, a2 + 1))
+        elif typ == 7:        # SET (NOTSET/WILDCARD accept whatever arrives and expect nothing in particular)
+            for lo, hi in ctx.patn.sets[a1][1]:
+                expected.update(range(lo, hi + 1))
+    names = ctx.li["rule names"]
+    for (_, _, typ, rule, act, _) in ctx.latn.edges:
+        if typ != 6 or act < 0 or act >= len(ctx.latn.actions):
+            continue
+        atype, d1, _ = ctx.latn.actions[act]
+        hidden = (atype == 0 and d1 != 0) or atype == 6
+        tt = ctx.latn.rule_token[rule] if rule < len(ctx.latn.rule_token) else 0
+        if hidden and tt in expected:
+            users = sorted({ctx.pi["rule names"][ctx.patn.states[e[0]][1]] for e in ctx.patn.edges
+                            if (e[2] == 5 and e[3] == tt) or (e[2] == 7 and any(lo <= tt <= hi for lo, hi in ctx.patn.sets[e[3]][1]))})
+            out.append({"property": "C03", "name": "a token the parser expects is delivered to it: %s" % names[rule], "verdict": "sat",
+                        "witness": "lexer rule %s sends its token to %s, parser rule(s) %s expect it: the text of such a token never reaches the listener (e.g. a // comment inside a condition expression is dropped from the expression)"
+                                   % (names[rule], "channel %d" % d1 if atype == 0 else "skip", ", ".join(users))})
+    if not out:
+        out.append({"property": "C03", "name": "every token the parser expects is delivered to it", "verdict": "unsat", "witness": None})
+    return out
